@@ -161,6 +161,78 @@ theorem headers_and_blocks_preserve :
       GV.Model.PreserveTypes.preservesKind "blk" era = true ∧
       GV.Model.PreserveTypes.preservesKind "hdr" era = true := by decide
 
+/-! ### Object reuse -/
+
+/-- the cache, when filled, holds the digest of the currently stored bytes -/
+def CacheOk {D : Type} (h : Bytes → D) (o : Obj D) : Prop :=
+  ∀ d, o.cache = some d → d = h (o.stored.getD [])
+
+theorem cacheOk_step {D : Type} (h : Bytes → D) (o : Obj D) (op : ReuseOp) (hk : CacheOk h o) :
+    CacheOk h (reuseStep h o op) := by
+  cases op with
+  | decode b =>
+    simp only [reuseStep, decodeInto]
+    cases decodeStore b with
+    | none => exact hk
+    | some s => intro d hd; simp at hd
+  | hash =>
+    simp only [reuseStep, hashOf]
+    cases hc : o.cache with
+    | some d => simpa using hk
+    | none =>
+      intro d hd
+      simp only [Option.some.injEq] at hd
+      exact hd.symm
+
+theorem cacheOk_run {D : Type} (h : Bytes → D) (ops : List ReuseOp) :
+    ∀ (o : Obj D), CacheOk h o → CacheOk h (reuseRun h o ops) := by
+  induction ops with
+  | nil => intro o hk; exact hk
+  | cons op rest ih => intro o hk; exact ih _ (cacheOk_step h o op hk)
+
+/-- **id_after_reuse.** Whatever was decoded into an object before and however often its
+    identifier was asked for (and cached) in between: after a successful decode of `b`, and
+    after any further identifier queries, the stored bytes are exactly the item at the start of
+    `b` (nothing of the previous, possibly longer, content survives) and the identifier is the
+    digest of exactly those bytes. -/
+theorem id_after_reuse {D : Type} (h : Bytes → D) (before : List ReuseOp) (b s : Bytes) (queries : Nat)
+    (hs : decodeStore b = some s) :
+    let o := reuseRun h (reuseRun h ({} : Obj D) (before ++ [.decode b])) (List.replicate queries .hash)
+    (hashOf h o).1 = h s ∧ o.stored = some s := by
+  intro o
+  have hst : ∀ (q : Nat) (o' : Obj D), o'.stored = some s →
+      (reuseRun h o' (List.replicate q .hash)).stored = some s := by
+    intro q
+    induction q with
+    | zero => intro o' h'; exact h'
+    | succ q ih =>
+      intro o' h'
+      simp only [List.replicate_succ, reuseRun, List.foldl_cons]
+      apply ih
+      simp only [reuseStep, hashOf]
+      cases o'.cache <;> exact h'
+  have h1 : (reuseRun h ({} : Obj D) (before ++ [.decode b])).stored = some s := by
+    simp only [reuseRun, List.foldl_append, List.foldl_cons, List.foldl_nil, reuseStep, decodeInto, hs]
+  have hstored : o.stored = some s := hst queries _ h1
+  have hk : CacheOk h o := by
+    apply cacheOk_run
+    apply cacheOk_run
+    intro d hd; simp at hd
+  refine ⟨?_, hstored⟩
+  simp only [hashOf]
+  cases hc : o.cache with
+  | some d => simp only; rw [hk d hc, hstored]; rfl
+  | none => simp only; rw [hstored]; rfl
+
+/-- Non-vacuity / what the theorem excludes: if the decode kept the cache (a field-by-field
+    copy in `UnmarshalCBOR`), the identifier after reuse is the PREVIOUS object's. -/
+theorem stale_cache_counterexample :
+    let a : Bytes := [0x82, 0x01, 0x02]
+    let b : Bytes := [0x81, 0x05]
+    let o1 := (hashOf (D := Bytes) id (decodeInto {} a)).2
+    (hashOf id (decodeIntoStale o1 b)).1 = a ∧ (decodeIntoStale o1 b).stored = some b ∧
+    (hashOf id (decodeInto o1 b)).1 = b := by decide
+
 /-- Clause (3) at full strength: every decoded object re-serialises to its stored bytes. -/
 def C01_reencode_full (marshalOf : Stored → Bytes) : Prop :=
   ∀ s re, marshalOf { cbor := some s, reencoded := re } = s
